@@ -50,6 +50,7 @@ void gen_common(Plan *p, Rng *g, int tier)
 	p->skew_s = (int64_t)rng_below(g, 201) - 100;
 	p->closer = rng_below(g, 2);
 	p->tz = rng_chance(g, 1, 2) ? 0 : (int64_t)rng_below(g, 5);
+	p->extra_roots = rng_chance(g, 1, 4) ? 1 + (int64_t)rng_below(g, 3) : 0;     /* trust bundle of 1..4 anchors */
 }
 
 static int64_t draw_size(Rng *g, int64_t max_bytes)
